@@ -10,7 +10,9 @@
 
    One thread.  The main flow executes a list of Block | Unblock d; a signal that arrives pushes an activation of
    processSignal on a stack (handlers nest LIFO); before every atomic step of the running activation a schedule
-   entry decides whether that step executes (0) or a signal s <> 0 arrives.  Callback answers are data.
+   entry decides whether that step executes (0) or a signal s <> 0 arrives.  Callback answers are data; a callback
+   may also call blockSignals() itself and leave the release to the main flow ([cb_block], a transition of its own:
+   Proofs.reach_cbb; Disp.cstep executes it for OS-level answer code 4).
    Ghost accounting: every arrival is a token (its index); the token is in exactly one place (Proofs.v).
 
    [atomic = true]  is the code as it is (after the repair), [atomic = false] the code before the repair
@@ -42,23 +44,24 @@ Inductive fate :=
 | FLost.               (* its number was in the slot when unblockSignals cleared it without having read it *)
 
 Record st := mk {
+  cbt : Z;                       (* ghost: blocks taken by callbacks so far (never decreases) *)
   blocked : Z; pending : Z;
   pend_id : nat;                 (* ghost: whose number sits in pending_ (meaningful iff pending <> 0) *)
   mpc_ : mpc; ops : list op;     (* main flow *)
   stack : list hframe;           (* processSignal activations above the main flow, top first *)
   answers : list bool;           (* answers of the callback, in invocation order; true = continue *)
   arrs : list Z;                 (* ghost: signal numbers of the arrivals so far (arrival i = nth i) *)
-  depth : Z;                     (* ghost: blocks held by the main flow *)
+  depth : Z;                     (* ghost: blocks the application holds: taken by the main flow or by a callback (cb_block), not yet released *)
   stops : Z;                     (* ghost: callbacks that answered stop *)
   fates : list (nat * fate) }.   (* ghost: what became of the arrivals that are no longer in flight *)
 
 Definition set_pc (f : hframe) (p : hpc) : hframe := mkH (h_sig f) (h_id f) (h_def f) p (h_r f).
 
-Definition init (o : list op) (a : list bool) : st := mk 0 0 O MOp o [] a [] 0 0 [].
+Definition init (o : list op) (a : list bool) : st := mk 0 0 0 O MOp o [] a [] 0 0 [].
 
 (* a signal arrives: sigHandler -> processSignal(sg) *)
 Definition arrive (sg : Z) (s : st) : st :=
-  mk (blocked s) (pending s) (pend_id s) (mpc_ s) (ops s)
+  mk (cbt s) (blocked s) (pending s) (pend_id s) (mpc_ s) (ops s)
      (mkH sg (length (arrs s)) false HInc 0 :: stack s) (answers s)
      (arrs s ++ [sg]) (depth s) (stops s) (fates s).
 
@@ -66,45 +69,65 @@ Definition arrive (sg : Z) (s : st) : st :=
 Definition hstep (f : hframe) (rest : list hframe) (s : st) : st :=
   match h_pc f with
   | HInc =>      (* r = fetch_and_inc(blocked_) *)
-      mk (blocked s + 1) (pending s) (pend_id s) (mpc_ s) (ops s)
+      mk (cbt s) (blocked s + 1) (pending s) (pend_id s) (mpc_ s) (ops s)
          (mkH (h_sig f) (h_id f) (h_def f) (if blocked s =? 0 then HCbEnter else HTest) (blocked s) :: rest)
          (answers s) (arrs s) (depth s) (stops s) (fates s)
   | HCbEnter =>  (* onSignal(sig) is entered *)
-      mk (blocked s) (pending s) (pend_id s) (mpc_ s) (ops s) (set_pc f HCbExit :: rest)
+      mk (cbt s) (blocked s) (pending s) (pend_id s) (mpc_ s) (ops s) (set_pc f HCbExit :: rest)
          (answers s) (arrs s) (depth s) (stops s) ((h_id f, FDelivered (h_sig f)) :: fates s)
   | HCbExit =>   (* onSignal returns *)
       match answers s with
       | false :: a =>   (* stop: return without the decrement *)
-          mk (blocked s) (pending s) (pend_id s) (mpc_ s) (ops s) rest a (arrs s) (depth s) (stops s + 1) (fates s)
+          mk (cbt s) (blocked s) (pending s) (pend_id s) (mpc_ s) (ops s) rest a (arrs s) (depth s) (stops s + 1) (fates s)
       | _ =>
-          mk (blocked s) (pending s) (pend_id s) (mpc_ s) (ops s) (set_pc f HDec :: rest)
+          mk (cbt s) (blocked s) (pending s) (pend_id s) (mpc_ s) (ops s) (set_pc f HDec :: rest)
              (tl (answers s)) (arrs s) (depth s) (stops s) (fates s)
       end
   | HTest =>     (* pending_ == 0 ? *)
       if pending s =? 0 then
-        mk (blocked s) (pending s) (pend_id s) (mpc_ s) (ops s) (set_pc f HWrite :: rest)
+        mk (cbt s) (blocked s) (pending s) (pend_id s) (mpc_ s) (ops s) (set_pc f HWrite :: rest)
            (answers s) (arrs s) (depth s) (stops s) (fates s)
       else
-        mk (blocked s) (pending s) (pend_id s) (mpc_ s) (ops s) (set_pc f HDec :: rest)
+        mk (cbt s) (blocked s) (pending s) (pend_id s) (mpc_ s) (ops s) (set_pc f HDec :: rest)
            (answers s) (arrs s) (depth s) (stops s)
            ((h_id f, if h_def f then FStopLost else FDiscarded) :: fates s)
   | HWrite =>    (* pending_ = sig *)
-      mk (blocked s) (h_sig f) (h_id f) (mpc_ s) (ops s) (set_pc f HDec :: rest)
+      mk (cbt s) (blocked s) (h_sig f) (h_id f) (mpc_ s) (ops s) (set_pc f HDec :: rest)
          (answers s) (arrs s) (depth s) (stops s)
          (if pending s =? 0 then fates s else (pend_id s, FOverwritten) :: fates s)
   | HDec =>      (* fetch_and_dec(blocked_); return *)
-      mk (blocked s - 1) (pending s) (pend_id s) (mpc_ s) (ops s) rest
+      mk (cbt s) (blocked s - 1) (pending s) (pend_id s) (mpc_ s) (ops s) rest
          (answers s) (arrs s) (depth s) (stops s) (fates s)
   end.
+
+(* the callback that is running (onSignal has been entered, it has not returned yet) calls blockSignals() itself:
+   fetch_and_inc(blocked_).  The callback does not release it: after its return the application holds one block more
+   than before the arrival, and a later unblockSignals of the main flow releases it.  This is not a step of [step]:
+   like an arrival it is something the environment (the application's callback) decides to do; Proofs.v adds it to
+   [reach], Disp.v executes it for the callbacks the case marks (answer code 4). *)
+Definition cb_block (s : st) : st :=
+  match stack s with
+  | f :: _ => match h_pc f with
+              | HCbExit => mk (cbt s + 1) (blocked s + 1) (pending s) (pend_id s) (mpc_ s) (ops s) (stack s) (answers s)
+                              (arrs s) (depth s + 1) (stops s) (fates s)
+              | _ => s
+              end
+  | [] => s
+  end.
+
+(* the main flow is application code: what it does next may be decided on the fly (e.g. release a block that a callback
+   took).  [ops] is only the plan of the main flow; replacing the plan at an operation boundary is not a step of the code. *)
+Definition set_ops (s : st) (o : list op) : st :=
+  mk (cbt s) (blocked s) (pending s) (pend_id s) (mpc_ s) o (stack s) (answers s) (arrs s) (depth s) (stops s) (fates s).
 
 (* unblockSignals after pending_ has been cleared, with pend = p: if (pend && d) processSignal(pend); *)
 Definition take (dl : bool) (p : Z) (pid : nat) (s : st) : st :=
   if p =? 0 then
-    mk (blocked s) 0 (pend_id s) MOp (ops s) (stack s) (answers s) (arrs s) (depth s) (stops s) (fates s)
+    mk (cbt s) (blocked s) 0 (pend_id s) MOp (ops s) (stack s) (answers s) (arrs s) (depth s) (stops s) (fates s)
   else if dl then
-    mk (blocked s) 0 (pend_id s) MOp (ops s) (mkH p pid true HInc 0 :: stack s) (answers s) (arrs s) (depth s) (stops s) (fates s)
+    mk (cbt s) (blocked s) 0 (pend_id s) MOp (ops s) (mkH p pid true HInc 0 :: stack s) (answers s) (arrs s) (depth s) (stops s) (fates s)
   else
-    mk (blocked s) 0 (pend_id s) MOp (ops s) (stack s) (answers s) (arrs s) (depth s) (stops s) ((pid, FDropped) :: fates s).
+    mk (cbt s) (blocked s) 0 (pend_id s) MOp (ops s) (stack s) (answers s) (arrs s) (depth s) (stops s) ((pid, FDropped) :: fates s).
 
 (* one atomic step of the main flow *)
 Definition mstep (atomic : bool) (s : st) : st :=
@@ -113,18 +136,18 @@ Definition mstep (atomic : bool) (s : st) : st :=
       match ops s with
       | [] => s
       | Block :: o =>
-          mk (blocked s + 1) (pending s) (pend_id s) MOp o (stack s) (answers s) (arrs s) (depth s + 1) (stops s) (fates s)
+          mk (cbt s) (blocked s + 1) (pending s) (pend_id s) MOp o (stack s) (answers s) (arrs s) (depth s + 1) (stops s) (fates s)
       | Unblock dl :: o =>
-          mk (blocked s - 1) (pending s) (pend_id s) (if blocked s =? 1 then MTake dl else MOp) o (stack s)
+          mk (cbt s) (blocked s - 1) (pending s) (pend_id s) (if blocked s =? 1 then MTake dl else MOp) o (stack s)
              (answers s) (arrs s) (depth s - 1) (stops s) (fates s)
       end
   | MTake dl =>
       if atomic then take dl (pending s) (pend_id s) s     (* pend = fetch_and_clear(pending_) *)
-      else mk (blocked s) (pending s) (pend_id s) (MClear dl (pending s) (pend_id s)) (ops s) (stack s)
+      else mk (cbt s) (blocked s) (pending s) (pend_id s) (MClear dl (pending s) (pend_id s)) (ops s) (stack s)
               (answers s) (arrs s) (depth s) (stops s) (fates s)   (* pend = pending_ *)
   | MClear dl p pid =>                                      (* pending_ = 0 *)
       take dl p pid
-        (mk (blocked s) (pending s) (pend_id s) (mpc_ s) (ops s) (stack s) (answers s) (arrs s) (depth s) (stops s)
+        (mk (cbt s) (blocked s) (pending s) (pend_id s) (mpc_ s) (ops s) (stack s) (answers s) (arrs s) (depth s) (stops s)
             (if (p =? 0) && negb (pending s =? 0) then (pend_id s, FLost) :: fates s else fates s))
   end.
 
